@@ -2,6 +2,8 @@ package checks
 
 import (
 	"fmt"
+	"math"
+	"sync/atomic"
 
 	"github.com/golang/geo/s1"
 	"github.com/golang/geo/s2"
@@ -134,4 +136,140 @@ func c08CompactIndexTargets(c *core.Ctx) {
 	c.Nontrivial(int(optimized))
 	c.Count(sub+"/queries", evals)
 	c.Count(sub+"/answered_by_the_optimized_search", optimized)
+}
+
+// Sub-check "index-target-max-error": closest edge of index A to index B with MaxResults(1), a positive
+// MaxError and NO distance limit — the one combination in which the target's own inner query is allowed
+// to stop early (a ShapeIndex target is the only target type that uses MaxError) and in which the outer
+// search must therefore lower every cell distance by MaxError before pruning.  Whether a cell is pruned
+// wrongly depends on the geometry, so B is moved over a polar grid of positions around A for several
+// sizes of A, B and MaxError.  Oracle: the reported distance is at most MaxError (as an angle) above the
+// exact minimum found by the brute-force scan with MaxError 0.
+func init() {
+	ck := Registry["C08"]
+	run := ck.Run
+	ck.Run = func(c *core.Ctx) {
+		run(c)
+		c08IndexTargetMaxError(c)
+	}
+}
+
+func c08IndexTargetMaxError(c *core.Ctx) {
+	sub := "index-target-max-error"
+	type shapeKind struct {
+		name string
+		mk   func(ctr s2.Point, r float64, n int) *s2.ShapeIndex
+	}
+	loopIx := func(ctr s2.Point, r float64, n int) *s2.ShapeIndex {
+		ix := s2.NewShapeIndex()
+		ix.Add(s2.RegularLoop(ctr, s1.Angle(r), n))
+		return ix
+	}
+	cloudIx := func(ctr s2.Point, r float64, n int) *s2.ShapeIndex {
+		// points on a sunflower spiral inside the cap (deterministic, roughly uniform)
+		var pv s2.PointVector
+		ox := s2.Ortho(ctr)
+		oy := s2.Point{Vector: ctr.Cross(ox.Vector).Normalize()}
+		for k := 0; k < n; k++ {
+			rr := r * math.Sqrt((float64(k)+0.5)/float64(n))
+			az := 2.399963229728653 * float64(k)
+			d := ox.Mul(math.Cos(az)).Add(oy.Mul(math.Sin(az)))
+			pv = append(pv, s2.Point{Vector: ctr.Mul(math.Cos(rr)).Add(d.Mul(math.Sin(rr))).Normalize()})
+		}
+		ix := s2.NewShapeIndex()
+		ix.Add(&pv)
+		return ix
+	}
+	kinds := []shapeKind{{"loop", loopIx}, {"point cloud", cloudIx}}
+	ctrs := []s2.Point{lattice.LL(12, 34)}
+	if !c.Quick() {
+		ctrs = append(ctrs, lattice.LL(35.26, 45), lattice.LL(-89, 10))
+	}
+	radii := core.Pick(c, []float64{0.3, 0.01}, []float64{0.5, 0.1, 0.01, 0.001})
+	nas := core.Pick(c, []int{60, 200}, []int{40, 120, 240})
+	nbs := core.Pick(c, []int{12, 60}, []int{12, 40, 100})
+	rbs := []float64{0.1, 0.45, 1}
+	dists := core.Pick(c, []float64{0, 0.7, 1.3, 2, 3}, []float64{0, 0.4, 0.7, 1, 1.3, 1.7, 2, 3})
+	nAz := core.Pick(c, 8, 16)
+	epss := core.Pick(c, []float64{1, 0.3, 0.1, 0.03}, []float64{1, 0.5, 0.3, 0.1, 0.05, 0.03, 0.01})
+	type job struct {
+		ci, ka, kb    int
+		r, rb, d, eps float64
+		na, nb, az    int
+	}
+	var jobs []job
+	for ci := range ctrs {
+		for ka := range kinds {
+			for kb := range kinds {
+				for _, r := range radii {
+					for _, na := range nas {
+						for _, nb := range nbs {
+							for _, rb := range rbs {
+								for _, d := range dists {
+									for az := 0; az < nAz; az++ {
+										if d == 0 && az > 0 {
+											continue
+										}
+										for _, eps := range epss {
+											jobs = append(jobs, job{ci, ka, kb, r, rb, d, eps, na, nb, az})
+										}
+									}
+								}
+							}
+						}
+					}
+				}
+			}
+		}
+	}
+	var evals, optimized, slackUsed atomic.Int64
+	c.ParallelFor(len(jobs), func(ji int) {
+		jb := jobs[ji]
+		cas := []int{ji}
+		if c.Skip(sub, cas...) || c.Expired() {
+			return
+		}
+		detail := func() any {
+			return map[string]any{"A": fmt.Sprintf("%s, %d edges, radius %g rad", kinds[jb.ka].name, jb.na, jb.r), "B": fmt.Sprintf("%s, %d edges, radius %g x A's", kinds[jb.kb].name, jb.nb, jb.rb),
+				"B_centre": fmt.Sprintf("%g x A's radius from A's centre, azimuth %d/%d", jb.d, jb.az, nAz), "max_error_rad": jb.eps * jb.r}
+		}
+		c.Guard(sub, cas, detail, func() {
+			ctr := ctrs[jb.ci]
+			ox := s2.Ortho(ctr)
+			oy := s2.Point{Vector: ctr.Cross(ox.Vector).Normalize()}
+			az := 2 * math.Pi * (float64(jb.az) + 0.37) / float64(nAz)
+			dir := ox.Mul(math.Cos(az)).Add(oy.Mul(math.Sin(az)))
+			bc := s2.Point{Vector: ctr.Mul(math.Cos(jb.d * jb.r)).Add(dir.Mul(math.Sin(jb.d * jb.r))).Normalize()}
+			a := kinds[jb.ka].mk(ctr, jb.r, jb.na)
+			eps := s1.ChordAngleFromAngle(s1.Angle(jb.eps * jb.r))
+			before := s2.VerifEdgeQueryPaths.Optimized
+			got := s2.NewClosestEdgeQuery(a, s2.NewClosestEdgeQueryOptions().MaxResults(1).MaxError(eps).IncludeInteriors(false)).
+				FindEdges(s2.NewMinDistanceToShapeIndexTarget(kinds[jb.kb].mk(bc, jb.rb*jb.r, jb.nb)))
+			if s2.VerifEdgeQueryPaths.Optimized > before {
+				optimized.Add(1)
+			}
+			want := s2.NewClosestEdgeQuery(a, s2.NewClosestEdgeQueryOptions().MaxResults(1).UseBruteForce(true).IncludeInteriors(false)).
+				FindEdges(s2.NewMinDistanceToShapeIndexTarget(kinds[jb.kb].mk(bc, jb.rb*jb.r, jb.nb)))
+			evals.Add(1)
+			if len(got) != 1 || len(want) != 1 {
+				c.Violate(sub, "wrong-answer", "closest-edge query with a ShapeIndex target, MaxResults(1), MaxError > 0 and no limit does not return exactly one result", cas, detail())
+				return
+			}
+			limit := want[0].Distance().Add(eps)
+			tol := c08Tol(float64(limit)) + 1e-9*float64(limit)
+			if float64(got[0].Distance()) > float64(want[0].Distance())+c08Tol(float64(want[0].Distance())) {
+				slackUsed.Add(1)
+			}
+			if float64(got[0].Distance()) > float64(limit)+tol {
+				over := (got[0].Distance().Angle() - want[0].Distance().Angle()).Radians() / (jb.eps * jb.r)
+				c.Violate(sub, "wrong-answer", "closest-edge query with a ShapeIndex target, MaxResults(1), MaxError > 0 and no distance limit reports a distance more than MaxError above the true minimum", cas,
+					map[string]any{"case": detail(), "reported_rad": got[0].Distance().Angle().Radians(), "true_minimum_rad": want[0].Distance().Angle().Radians(), "excess_in_units_of_MaxError": over})
+			}
+		})
+	})
+	c.Eval(int(evals.Load()))
+	c.Nontrivial(int(slackUsed.Load()))
+	c.Count(sub+"/queries", evals.Load())
+	c.Count(sub+"/answered_by_the_optimized_search", optimized.Load())
+	c.Count(sub+"/answers_that_used_part_of_the_permitted_error", slackUsed.Load())
 }
